@@ -6,6 +6,8 @@ import (
 	"bytes"
 	"encoding/csv"
 	"strings"
+
+	"github.com/Chocapikk/pgread/pgdump"
 )
 
 func isSep(c byte) bool { return c == ',' || c == '\n' || c == '\r' }
@@ -86,8 +88,12 @@ func sameRecords(a, b [][]string) bool {
 	return true
 }
 
-// encoding/csv drops the CR of a CRLF inside quoted fields and of a field-final CR: compare modulo that
-func normCRLF(recs [][]string) [][]string {
+// The property's reader is the RFC 4180 reader above (Spec.Csv): its records are compared with the expected ones exactly.
+// Go's encoding/csv is run as a second, independent reader.  It deviates from RFC 4180 in one documented way ("a carriage
+// return before a newline is silently removed", also inside quoted fields; there is no way to write a field so that this
+// reader returns CR LF at that place), so for THIS reader — and only on the expected side — every CR LF is replaced by LF.
+// What the reader returns is never rewritten.
+func goCsvView(recs [][]string) [][]string {
 	out := make([][]string, len(recs))
 	for i, r := range recs {
 		out[i] = make([]string, len(r))
@@ -105,10 +111,36 @@ func goCsvAgrees(text []byte, expected [][]string) bool {
 	if err != nil {
 		return false
 	}
-	return sameRecords(normCRLF(recs), normCRLF(expected))
+	return sameRecords(recs, goCsvView(expected))
 }
 
-func csvTableVerdict(expected [][]string, text []byte) string {
+// valuesKept: port of Spec.CsvExport.valuesKept — in the records read back from the REAL text (header first) a field may
+// be empty only where the row has no value for the column (missing key, or a NULL) or the value is the empty string
+func valuesKept(t *pgdump.TableDump, recs [][]string) bool {
+	for i, row := range t.Rows {
+		if i+1 >= len(recs) {
+			break
+		}
+		for j, col := range t.Columns {
+			if j >= len(recs[i+1]) {
+				break
+			}
+			v, ok := row[col.Name]
+			if !ok || isNull(v) {
+				continue
+			}
+			if s, isStr := v.(string); isStr && s == "" {
+				continue
+			}
+			if recs[i+1][j] == "" {
+				return false
+			}
+		}
+	}
+	return true
+}
+
+func csvTableVerdict(t *pgdump.TableDump, expected [][]string, text []byte) string {
 	recs, ok := csvParse(text)
 	if !ok {
 		return "bad:csv"
@@ -118,6 +150,9 @@ func csvTableVerdict(expected [][]string, text []byte) string {
 	}
 	if !goCsvAgrees(text, expected) {
 		return "bad:gocsv"
+	}
+	if len(t.Columns) > 0 && !valuesKept(t, recs) {
+		return "bad:lost"
 	}
 	return "ok"
 }
@@ -144,10 +179,12 @@ func headerOK(db, table string, line []byte) bool {
 type section struct {
 	db, table string
 	expected  [][]string
+	tbl       *pgdump.TableDump
 }
 
 func csvSectionsVerdict(secs []section, text []byte) string {
 	i := 0
+	lost := false
 	for _, sc := range secs {
 		nl := bytes.IndexByte(text[i:], '\n')
 		if nl < 0 || !headerOK(sc.db, sc.table, text[i:i+nl]) {
@@ -177,10 +214,16 @@ func csvSectionsVerdict(secs []section, text []byte) string {
 		if !goCsvAgrees(text[start:i], sc.expected) {
 			return "bad:gocsv"
 		}
+		if len(sc.tbl.Columns) > 0 && !valuesKept(sc.tbl, recs) {
+			lost = true
+		}
 		i++
 	}
 	if i != len(text) {
 		return "bad:trailing"
+	}
+	if lost {
+		return "bad:lost"
 	}
 	return "ok"
 }
